@@ -274,6 +274,25 @@ def map_script(rnd, uidpool, peers=(1000, 1001, 1002, 0, 4242), nreq=8, listy=Fa
     return cmds, metas
 
 
+def burst_script(rnd, uidpool):
+    """one user changes a lot between two checkpoints (the daemon's list of users with unsaved changes has 16 places), then another
+    user changes something and looks at his queue"""
+    cmds, metas = [], {}
+    FAR = 5000
+    a, b = rnd.sample([1000, 1001, 1002], 2)
+    def add(p, uid):
+        it = {'kind': 'add', 'uid': uid, 'occ': [FAR + rnd.randint(0, 50)], 'maxsim': 0, 'peer': p}; it['start'] = secs(min(it['occ']))
+        metas[len(cmds)] = [it]; cmds.append(areq(rnd, p, request([it])))
+    if rnd.random() < 0.5: add(b, 'pre-' + rnd.choice(uidpool))
+    if rnd.random() < 0.5: cmds.append('K')
+    for i in range(rnd.choice([14, 15, 16, 17, 20])): add(a, rnd.choice(uidpool) if rnd.random() < 0.3 else 'burst%d' % i)
+    for _ in range(rnd.randint(1, 3)):
+        add(b, 'late-' + rnd.choice(uidpool))
+        metas[len(cmds)] = {'what': 'queue'}; cmds.append('H\t%d\tGET /queue HTTP/1.1' % b)
+    metas[len(cmds)] = {'what': 'queue'}; cmds.append('H\t%d\tGET /queue HTTP/1.1' % a)
+    return cmds, metas
+
+
 def table_script(rnd):
     """nothing but connections coming and going, up to and beyond the 64 the table holds"""
     cmds = []; n = 0
